@@ -226,7 +226,12 @@ func c03SCIONWorld(r *simcore.Run) any {
 		desc := fmt.Sprintf("SCION exchange(request sent %v, reached server %v, reply left %v, receive-stamped %v) mode=%v forwarder=%v t1@%v t2@%v",
 			T0.Sub(r.Start()), e.qAtSrv.ArrivedAt.Sub(r.Start()), e.pSrv.SentAt.Sub(r.Start()), T3.Sub(r.Start()), ilResp, forwarder, T1x.Sub(r.Start()), T2x.Sub(r.Start()))
 		if e.q.TxStampFault != "" {
+			// t0 is a clock reading taken after the send: not before it, and - whatever else -
+			// not after the response was received
 			r.Probe("client-kernel-tx-stamp-missing")
+			if ts[0].Before(w.cli.Clock.At(T0).Add(-c03Eps)) || ts[0].After(ts[3]) {
+				r.Fail("C03", "scion/membership/t0", "software transmit timestamp %v of an exchange sent at %v and answered at %v (client clock); %s", ts[0], w.cli.Clock.At(T0), ts[3], desc)
+			}
 			return
 		}
 		if d := absDur(ts[0].Sub(w.cli.Clock.At(T0))); d > c03Eps {
@@ -272,9 +277,19 @@ func c03SCIONWorld(r *simcore.Run) any {
 				r.Fault("server-clock-step")
 			}
 			ctx, cancel := simsync.WithTimeout(context.Background(), []time.Duration{200 * time.Millisecond, time.Second}[tp.Intn(2, "to")])
-			client.MeasureClockOffsetSCION(ctx, log, []*client.SCIONClient{cl}, laddr, raddr, []snet.Path{path})
+			calls0 := len(filter.calls)
+			_, retOff, retErr := client.MeasureClockOffsetSCION(ctx, log, []*client.SCIONClient{cl}, laddr, raddr, []snet.Path{path})
 			cancel()
 			simcore.SetTag("driver")
+			// what the caller gets is the offset of the last exchange the client completed in this
+			// measurement (one client, one path: the midpoint of one value)
+			if n := len(filter.calls); retErr == nil && n > calls0 && r.Violation() == nil {
+				if want := filter.outs[n-1]; retOff != want {
+					r.Fail("C03", "scion/returned-offset", "measurement %d: the client's last completed exchange gave offset %v, the caller was handed %v", k, want, retOff)
+					return
+				}
+				r.Probe("returned-offset-checked")
+			}
 		}
 	})
 	reason := r.Loop(3_000_000, 0)
